@@ -145,18 +145,20 @@ def strictlyIncreasing : List Bytes → Bool
 
       num, err := dec.ReadUint64()
       if err == io.EOF && num == 0 { return topo, nil }
+      if err != nil { return nil, err }
       topo.TopologicalOrder = num
       es, err := dec.buf.ReadByte()
       if err != io.EOF || es != 0 { return nil, … }
 
     * nothing left: `ReadUint64` fails with `io.EOF` → accepted, topology 0;
-    * 1..7 octets left: `Read` consumes them and fails with "data short" (not `io.EOF`), the
-      error is overwritten, `num = 0`, then `ReadByte` sees `io.EOF` → **accepted**, topology 0;
+    * 1..7 octets left: `Read` consumes them and fails with "data short" (not `io.EOF`)
+      → rejected (before the `fix:` commit the error was overwritten and this was accepted
+      with topology 0 — finding C07:partial-topo-suffix);
     * exactly 8: the topology; `ReadByte` sees `io.EOF` → accepted;
     * more: `ReadByte` returns a byte without error → rejected. -/
 def readTail (b : Bytes) : Option Nat :=
   if b.length = 0 then some 0
-  else if b.length < 8 then some 0
+  else if b.length < 8 then none
   else if b.length = 8 then some (beNat b)
   else none
 
